@@ -11,7 +11,13 @@ oracle           : the property itself on the implementation alone: one-hot imag
                    peak pixel, vectorised KDE vs per-sample, KDE peak pixel with binning 2/4 for a particle in the upper/right part of
                    a binned pixel (== containing pixel == histogram pixel), BPM reading vs exact centroid, pass-through / blocking incl.
                    direct screen.track(beam) / screen(beam) calls for all (is_active, is_blocking) combinations and both beam types.
-known findings   : F14 (y-misalignment subtracted from px), F15 (ParameterBeam image transposed, sampled at pixel edges).
+survival / batch  : histogram screens with fractional and zero survival probabilities on the screen (whole image exact, vm_compute);
+                   KDE image vs the weighted kernel sum from its definition (float64), lost particles invisible, (q, s) ~ (q*s, 1);
+                   vectorised beams (coordinates / survival) and vectorised misalignments: every sample of the reading == the un-vectorised
+                   screen/beam of that sample (kde; histogram: rejected by the code or exact per sample), per-sample normalisation, BPM per sample.
+known findings   : F15 (ParameterBeam image transposed, sampled at pixel edges; status known).  F14 (y-misalignment subtracted from px) is FIXED:
+                   its stored input is replayed as a regression test and nothing is absorbed by it.  A deviation is absorbed only by a finding
+                   with status `known` and only when the OBSERVED values equal that finding's characterised wrong values.
 """
 import json
 import math
@@ -760,7 +766,9 @@ def main(tier, replay=None):
                        "misalignments, active/inactive, blocking, inactive+blocking; tracked directly or inside a Segment) x particle sets (1..8 particles on a dyadic lattice, never within 1/16 pixel of "
                        "a bin edge, inside and outside the screen, dyadic charges and survival values) in float32 so that every value is an "
                        "exact rational; whole image / read beam / returned beam compared with the Coq model by vm_compute. Non-trivial = at least "
-                       "one particle with non-zero weight inside the screen; distinct by full case content.")
+                       "one particle with non-zero weight inside the screen; distinct by full case content. Plus: histogram screens with a fractional and "
+                       "a lost particle ON the screen (survival 0, 1/8 .. 3/4, 1); KDE screens vs the weighted kernel sum; vectorised beams (coordinates and/or "
+                       "survival with a batch dimension) x vectorised misalignments, both methods, directly and inside a Segment, BPM per sample.")
     if replay:
         return do_replay(run, replay)
     proof_ok = run.proof_stage()
@@ -1008,7 +1016,11 @@ def main(tier, replay=None):
     # ---------------- known findings: replay the stored inputs
     replay_known(run, known)
 
-    run.cov["tested_only"] = ["KDE image: vectorised == per-sample (1e-5 relative), shape, single-particle peak pixel (binning 2/4: particle in the "
+    run.cov["tested_only"] = ["KDE image vs the normalised Gaussian kernel sum with weights charge*survival at the binned pixel centres (float64 reference, 2e-4 of the "
+                              "image maximum); lost particles invisible; vectorised beam / survival / misalignment == per-sample images (1e-5), per-sample "
+                              "normalisation; vectorised histogram input is rejected by the code (NotImplementedError, or a shape error of histogramdd when only the "
+                              "survival probabilities are vectorised)",
+                              "KDE image: vectorised == per-sample (1e-5 relative), shape, single-particle peak pixel (binning 2/4: particle in the "
                               "upper/right part of a binned pixel; peak == containing pixel == histogram pixel)",
                               "direct Screen.track / screen(beam) on inactive+blocking screens for ParameterBeam (the model's track_screen covers the "
                               "ParticleBeam case; Segment.track never calls an inactive screen)",
